@@ -121,9 +121,20 @@ class ConfigTargetVisibility(object):
             is_constant = False
         else:
             # Promptless or target-gated: constant iff everything determining its value is target-constant.
-            is_constant = self._expr_is_target_constant(item.rev_dep) and all(
-                self._expr_is_target_constant(cond) and self._expr_is_target_constant(value)
-                for value, cond in item.defaults
+            # An imply takes effect only while the symbol's own dependencies hold, so both count.
+            is_constant = (
+                self._expr_is_target_constant(item.rev_dep)
+                and (
+                    item.weak_rev_dep is self.kconfig.n
+                    or (
+                        self._expr_is_target_constant(item.weak_rev_dep)
+                        and self._expr_is_target_constant(item.direct_dep)
+                    )
+                )
+                and all(
+                    self._expr_is_target_constant(cond) and self._expr_is_target_constant(value)
+                    for value, cond in item.defaults
+                )
             )
 
         self._constants_cache[item.name] = is_constant
